@@ -132,6 +132,19 @@ func randomCodeFrom(a *Asm, r *Rng, n int, targets []common.Address) []byte {
 			if r.Chance(40) {
 				a.Op(0x3d, opPUSH1, 0, opPUSH1, 0, 0x3e) // RETURNDATASIZE 0 0 RETURNDATACOPY
 			}
+			if r.Chance(35) {
+				// the account just touched (it may now exist but be empty): look at it, or call it again with value
+				switch r.Intn(5) {
+				case 0:
+					a.PushBytes(t[:]).Op(0x3f, opPOP) // EXTCODEHASH
+				case 1:
+					a.PushBytes(t[:]).Op(0x3b, opPOP) // EXTCODESIZE
+				case 2:
+					a.PushBytes(t[:]).Op(0x31, opPOP) // BALANCE
+				default:
+					a.PushU(0).PushU(0).PushU(0).PushU(0).PushU(1).PushBytes(t[:]).Op(opGAS, opCALL, opPOP) // CALL with value 1
+				}
+			}
 		case k < 82: // create
 			init := []byte{opPUSH1, byte(r.Intn(3)), opPUSH1, 0, opSSTORE, opPUSH1, 1, opPUSH1, 0, opRETURN}
 			switch r.Intn(6) {
